@@ -18,7 +18,7 @@ T = {
  'C04': ('walker', EX, 'lock-step PIN model + independent at-rest decoder of the PIN blobs',
          'histories of InitToken/InitPIN/SetPIN/Login/restart with hostile PIN alphabets; the model predicts exactly which byte string authenticates; an independent decoder checks both PIN blobs unwrap the same master key',
          'a wrong PIN is accepted by chance with p~2^-32 per attempt; such a hit is retried before being reported', '3/C04'),
- 'C05': ('walker+faults', FE, 'persistence model compared after restarts, independent on-disk decoders, golden fixtures, FS fault injection by interposition',
+ 'C05': ('walker+faults', EX, 'persistence model compared after restarts, independent on-disk decoders, golden fixtures, FS fault injection by interposition',
          'object histories with restarts in-process and in new processes; golden token directories written by the pinned version; every FS operation of create/set/destroy/copy failed in turn',
          'durability against process restart, not power loss (the library never fsyncs)', '3/C05'),
  'C06': ('walker', EX, 'raw scan of the token directory for recorded plaintexts + independent decryption of every stored blob + permission monitor',
